@@ -49,6 +49,17 @@ def Cnt.expand (c : Cnt) (ncross : Nat) : Except Err (List Nat) :=
   | .scalar n => .ok (List.replicate ncross n)
   | .arr l => if l.length = ncross then .ok l else .error .value
 
+/-- numpy's `a * b` for two elements of a `bits`-wide integer dtype (two's complement when `signed`): the
+    product is reduced modulo `2^bits` without warning.  `SelfCross`, `TwoWayCross` and `ThreeWayCross` compute
+    `nmating * nprogeny` in the dtype of the count arrays they are handed (finding D70). -/
+def wrapMul (bits : Nat) (signed : Bool) (a b : Nat) : Int :=
+  let m := (a * b) % 2 ^ bits
+  if signed && decide (2 ^ (bits - 1) ≤ m) then (m : Int) - (2 ^ bits : Nat) else (m : Int)
+
+/-- `nmating * nprogeny` as the three protocols compute it for count arrays of a `bits`-wide dtype -/
+def countProductAsIs (bits : Nat) (signed : Bool) (nm np : List Nat) : List Int :=
+  List.zipWith (wrapMul bits signed) nm np
+
 /-- `xconfig[:,k]` -/
 def col (xc : List (List Nat)) (k : Nat) : List Nat := xc.map (fun r => r.getD k 0)
 
@@ -59,13 +70,14 @@ def fixedW : Nat → Nat → List Nat
   | 0, _ => []
   | w + 1, n => (48 + n / 10 ^ w % 10) :: fixedW w n
 
-/-- number of decimal digits of `n` (at least 1); `fuel` ≥ the answer suffices -/
+/-- number of decimal digits of `n` (at least 1); `fuel` ≥ the answer suffices (`zfill7` passes `n` itself,
+    so the count is exact for every `n`: `Lemmas/MatingOrder.ndigits_spec`) -/
 def ndigits : Nat → Nat → Nat
   | 0, _ => 1
   | fuel + 1, n => if n < 10 then 1 else 1 + ndigits fuel (n / 10)
 
 /-- `str(i).zfill(7)` for `i ≥ 0` -/
-def zfill7 (i : Nat) : List Nat := fixedW (max 7 (ndigits 64 i)) i
+def zfill7 (i : Nat) : List Nat := fixedW (max 7 (ndigits i i)) i
 
 /-- `prefix + str(i).zfill(7)` -/
 def name (pre : List Nat) (i : Nat) : List Nat := pre ++ zfill7 i
